@@ -22,7 +22,7 @@ open Qx.C04
 /-! ### a white space keep-alive changes nothing -/
 
 /-- **White space between elements (RFC 6120 §4.6.1 keep-alive) is ignored in every state**: no signal, no send, no change of
-state — in particular an established session stays established.  (Before fa23804 the null element that `XmppSocket` reports for
+state — in particular an established session stays established.  (Before 8d68c05 the null element that `XmppSocket` reports for
 it was handed to the listeners, all of which rejected it: error, stream close, disconnected —
 `C10:whitespace-keepalive-ends-connection`, former theorem `C10_defect_whitespace_keepalive_ends_session`.) -/
 theorem whitespace_keepalive_is_ignored (s : St) : step s .recvWhitespace = (s, []) := rfl
